@@ -198,6 +198,11 @@ impl Repr {
             // with the `Release` decrement performed by the other handles when they were dropped.
             if heap.is_unique() {
                 // `heap` is unique, we can reallocate in place.
+                #[cfg(feature = "verif-hooks")]
+                crate::verif_hooks::point(
+                    crate::verif_hooks::site::RESERVE_UNIQUE,
+                    heap.reference_count() as *const _ as usize,
+                );
 
                 if heap.capacity() >= needed_capacity {
                     // No need to reserve more capacity.
@@ -212,6 +217,11 @@ impl Repr {
             } else {
                 // heap is shared, we need to allocate a new buffer.
                 // We keep our reference until the copy is done, then release it.
+                #[cfg(feature = "verif-hooks")]
+                crate::verif_hooks::point(
+                    crate::verif_hooks::site::RESERVE_SHARED,
+                    heap.reference_count() as *const _ as usize,
+                );
                 let str = heap.as_str();
                 let new_heap = HeapBuffer::with_additional(str, additional)?;
                 self.replace_inner(Repr::from_heap(new_heap));
@@ -267,12 +277,22 @@ impl Repr {
             return Ok(());
         } else if heap.is_unique() {
             // Try to extend the buffer in place.
+            #[cfg(feature = "verif-hooks")]
+            crate::verif_hooks::point(
+                crate::verif_hooks::site::SHRINK_UNIQUE,
+                heap.reference_count() as *const _ as usize,
+            );
             // SAFETY: `heap` is unique, and `new_capacity < old_capacity`
             unsafe { heap.realloc(new_capacity)? };
             return Ok(());
         } else {
             // We need to create a new buffer because the current buffer is shared with others.
             // The new buffer has exactly `new_capacity` (not an amortized one).
+            #[cfg(feature = "verif-hooks")]
+            crate::verif_hooks::point(
+                crate::verif_hooks::site::SHRINK_SHARED,
+                heap.reference_count() as *const _ as usize,
+            );
             let new_heap = HeapBuffer::with_exact_capacity(heap.as_str(), new_capacity)?;
             Repr::from_heap(new_heap)
         };
@@ -537,6 +557,11 @@ impl Repr {
             // the new reference to be created, which should be handled (synchronized) at the
             // drop/dealloc (decrement reference count) time.
             let prev = heap.reference_count().fetch_add(1, Relaxed);
+            #[cfg(feature = "verif-hooks")]
+            crate::verif_hooks::point(
+                crate::verif_hooks::site::CLONE_INC,
+                heap.reference_count() as *const _ as usize,
+            );
 
             // Same as Arc::clone.
             // We use `isize::MAX` instead of `usize::MAX` because a reference count slightly
@@ -571,8 +596,18 @@ impl Repr {
             // Same as Arc::drop.
             // Because `fetch_sub` is already atomic, we should use `Release` ordering to avoid
             // unexpected drop of the buffer and to ensure that the buffer is unique.
+            #[cfg(feature = "verif-hooks")]
+            crate::verif_hooks::point(
+                crate::verif_hooks::site::RELEASE_BEGIN,
+                heap.reference_count() as *const _ as usize,
+            );
             if heap.reference_count().fetch_sub(1, Release) == 1 {
                 // only the current thread has the reference, we can deallocate the buffer.
+                #[cfg(feature = "verif-hooks")]
+                crate::verif_hooks::point(
+                    crate::verif_hooks::site::RELEASE_FREE,
+                    heap.reference_count() as *const _ as usize,
+                );
 
                 // We need to wait for the reference count decrement to complete before
                 // deallocating the buffer.
@@ -613,6 +648,11 @@ impl Repr {
             if !heap.is_unique() {
                 // `heap` is shared, we need to create a new buffer.
                 // We keep our reference until the copy is done, then release it.
+                #[cfg(feature = "verif-hooks")]
+                crate::verif_hooks::point(
+                    crate::verif_hooks::site::MODIFIABLE_SHARED,
+                    heap.reference_count() as *const _ as usize,
+                );
                 let str = heap.as_str();
                 let new_heap = HeapBuffer::new(str)?;
                 self.replace_inner(Repr::from_heap(new_heap));
